@@ -66,13 +66,18 @@ class _DeterministicIds:
 
     def __init__(self):
         self.n = 0
+        self.scheme = "asc"  # asc: ids grow with creation; desc: ids shrink; mix: alternate ends (id ORDER must not matter)
 
     def reset(self):
         self.n = 0
 
     def uuid4(self):
         self.n += 1
-        return self._U(self.n)
+        if self.scheme == "asc":
+            return self._U(self.n)
+        if self.scheme == "desc":
+            return self._U(10 ** 9 - self.n)
+        return self._U(self.n if self.n % 2 else 10 ** 9 - self.n)
 
 
 _ids = _DeterministicIds()
@@ -83,6 +88,15 @@ def install_deterministic_ids():
     from basana.backtesting.lending import margin as _margin
     _ex.uuid = _ids
     _margin.uuid = _ids
+
+
+def install_random_ids():
+    """The library's own uuid4 ids (used where independence from the random ids is the very thing being checked)."""
+    import uuid as _uuid
+    from basana.backtesting import exchange as _ex
+    from basana.backtesting.lending import margin as _margin
+    _ex.uuid = _uuid
+    _margin.uuid = _uuid
 
 
 def call(coro):
